@@ -12,7 +12,7 @@
      affected g E base the labels reachable from a base label over reverse E-edges;
      shown g incsub l  l passes the include/exclude labels and the subrepo filter of the query;
      complete ... rep  every base label, and with level -1 every affected label, that is shown is in rep. *)
-From PlzV Require Import Base.Harness Model.C24 Proof.C24.
+From PlzV Require Import Base.Harness Model.C24 Proof.C24 Proof.C24_Gen.
 
 (* `plz query changes <files>`: nothing affected is missed *)
 Definition C24_files : Prop :=
